@@ -243,6 +243,11 @@ func (r *udpRig) step(f []string) (string, []dgram) {
 			at = res.BurstN
 		}
 		ds := r.drain(at)
+		if overflow && len(ds) == 0 {
+			// a direct send leaves no count behind: give loopback one more chance before deciding "nothing"
+			time.Sleep(200 * time.Microsecond)
+			ds = r.drain(0)
+		}
 		return fmt.Sprintf("staged=%s burst=%d flushed=%s %s", vlib.B(res.Staged), map[bool]int{true: 0, false: res.BurstN}[res.Flushed], vlib.B(res.Flushed), fmtSent(ds)), ds
 	case "flush":
 		n := r.u.Flush()
